@@ -21,5 +21,5 @@ run_one() {
   rm -rf "$S"
 }
 export -f run_one
-printf "%s\n" "${patches[@]}" | xargs -P ${NEUTRAL_JOBS:-4} -I{} bash -c 'run_one {}' | tee /tmp/neutral.$$.out
+printf "%s\n" "${patches[@]}" | xargs --process-slot-var=VERIF_SLOT -P ${NEUTRAL_JOBS:-4} -I{} bash -c 'run_one {}' | tee /tmp/neutral.$$.out
 ! grep -q "FALSE ALARM\|APPLY-FAILED" /tmp/neutral.$$.out; rc=$?; rm -f /tmp/neutral.$$.out; exit $rc
